@@ -128,6 +128,14 @@ func (e *ceEval) call(f *ssa.Function, args []interface{}) ([]interface{}, error
 				return nil, fmt.Errorf("nil constant of type %s", x.Type())
 			}
 			return x.Value, nil
+		case *ssa.Global:
+			// a package-level array that is written only by its initialiser
+			arr, err := globalArray(x)
+			if err != nil {
+				return nil, err
+			}
+			env[v] = arr
+			return arr, nil
 		}
 		return nil, fmt.Errorf("value %s (%T) used before it was computed", v.Name(), v)
 	}
@@ -459,4 +467,91 @@ func evalBytesFunc(f *ssa.Function, buf, s []byte) ([]byte, error) {
 		return nil, fmt.Errorf("result is %T", res[0])
 	}
 	return sl.bytes()
+}
+
+// globalArray: the contents of a package-level array variable, read off the
+// constant stores of the package initialiser — provided no other function of
+// the package stores through it or lets its address escape (then it is a
+// constant table in all but name).
+func globalArray(g *ssa.Global) (*ceArr, error) {
+	pt, ok := g.Type().(*types.Pointer)
+	if !ok {
+		return nil, fmt.Errorf("global %s is not addressable data", g.Name())
+	}
+	at, ok := pt.Elem().Underlying().(*types.Array)
+	if !ok {
+		return nil, fmt.Errorf("global %s is not an array", g.Name())
+	}
+	arr := &ceArr{elems: make([]constant.Value, at.Len())}
+	if g.Pkg == nil {
+		return nil, fmt.Errorf("global %s has no package", g.Name())
+	}
+	var fns []*ssa.Function
+	var add func(f *ssa.Function)
+	add = func(f *ssa.Function) {
+		fns = append(fns, f)
+		for _, a := range f.AnonFuncs {
+			add(a)
+		}
+	}
+	for _, m := range g.Pkg.Members {
+		switch x := m.(type) {
+		case *ssa.Function:
+			add(x)
+		case *ssa.Type:
+			for _, t := range []types.Type{x.Type(), types.NewPointer(x.Type())} {
+				ms := g.Pkg.Prog.MethodSets.MethodSet(t)
+				for i := 0; i < ms.Len(); i++ {
+					if f := g.Pkg.Prog.MethodValue(ms.At(i)); f != nil && f.Pkg == g.Pkg {
+						add(f)
+					}
+				}
+			}
+		}
+	}
+	for _, f := range fns {
+		isInit := f.Name() == "init" && f.Parent() == nil
+		for _, b := range f.Blocks {
+			for _, in := range b.Instrs {
+				for _, op := range in.Operands(nil) {
+					if *op != ssa.Value(g) {
+						continue
+					}
+					switch x := in.(type) {
+					case *ssa.IndexAddr:
+						refs := x.Referrers()
+						if refs == nil {
+							continue
+						}
+						for _, r := range *refs {
+							switch y := r.(type) {
+							case *ssa.UnOp:
+								// load
+							case *ssa.DebugRef:
+							case *ssa.Store:
+								k, isConst := y.Val.(*ssa.Const)
+								ic, isIdx := x.Index.(*ssa.Const)
+								if !isInit || y.Addr != ssa.Value(x) || !isConst || k.Value == nil || !isIdx {
+									return nil, fmt.Errorf("global %s is written outside its initialiser (in %s)", g.Name(), f.Name())
+								}
+								i, _ := constant.Int64Val(ic.Value)
+								if i < 0 || i >= at.Len() {
+									return nil, fmt.Errorf("initialiser of %s stores out of range", g.Name())
+								}
+								arr.elems[i] = k.Value
+							default:
+								return nil, fmt.Errorf("the address of an element of %s escapes in %s", g.Name(), f.Name())
+							}
+						}
+					case *ssa.UnOp:
+						// whole-array load
+					case *ssa.DebugRef:
+					default:
+						return nil, fmt.Errorf("global %s is used by %T in %s", g.Name(), in, f.Name())
+					}
+				}
+			}
+		}
+	}
+	return arr, nil
 }
